@@ -62,6 +62,17 @@ def _assigned_targets(body):
     return names, attrs, mutated
 
 
+def _has_skip_path(body):
+    """The loop body has an effect-free path: pure expression statements followed by one `if` without else."""
+    if not body:
+        return True
+    for st in body[:-1]:
+        if not isinstance(st, ast.Expr):
+            return False
+    last = body[-1]
+    return isinstance(last, ast.If) and not last.orelse
+
+
 class Gen:
     """A generalised loop-head value with its inductiveness check."""
     def __init__(self, value, check):
@@ -447,15 +458,29 @@ class LoopMixin:
             else:
                 more = self.choose(2, 'for: iterate/exit') == 0
             if not more:
+                self.event('loop-end-snap', st, snap=self._snap())
                 self.exec_block(st.orelse)
                 return
             if i == self.an.unroll:
+                self.event('loop-end-snap', st, snap=self._snap())
+                if _has_skip_path(st.body):
+                    # the remaining iterations take the effect-free path through the body
+                    self.event('for-skip', st, after=i)
+                    self.exec_block(st.orelse)
+                    return
                 raise Abandon('unroll bound')
+            if _has_skip_path(st.body) and i > 0 or (_has_skip_path(st.body) and ln is not None):
+                # iterations may be skipped (effect-free path): choose to stop iterating here
+                if self.choose(2, 'for: more iterations / rest skipped') == 1:
+                    self.event('loop-end-snap', st, snap=self._snap())
+                    self.event('for-skip', st, after=i)
+                    self.exec_block(st.orelse)
+                    return
             if isinstance(itv, RangeV) and prev is not None and isinstance(elem, IntV):
                 self.store.assume_ge0(elem.lin - prev.lin - 1)
             prev = elem
             self.assign(st.target, elem, st)
-            self.event('loop-iter', st, n=i, elem=elem)
+            self.event('loop-iter', st, n=i, elem=elem, snap=self._snap())
             try:
                 self.exec_block(st.body)
             except BreakSig:
